@@ -6,18 +6,22 @@
 (* harness evaluates the rendering on MR1 and the judge compares with      *)
 (* FPEval!Eval of the very same tree.                                      *)
 (***************************************************************************)
-EXTENDS C10_Prog
+EXTENDS C10_Prog, FiniteSetsExt
 
-CONSTANTS MaxDepth, Lanes
+CONSTANTS MaxDepth, Lanes, Seed
 
 VARIABLES ex, depth, lane
 vars == <<ex, depth, lane>>
 
-Init == ex \in Starts /\ depth = 0 /\ lane \in 1..Lanes
-(* one random growth step per state (TLC!RandomElement): every lane is one random program per depth *)
-PickOrFirst(cands, x) == IF cands = {} THEN Call(x, "first", <<>>) ELSE RandomElement(cands)
+(* every choice is a function of (Seed, lane, depth): a run is reproducible whatever the number of TLC workers *)
+Key(l, d, salt) == (l * 7919 + d * 104729 + Seed * 15485 + salt * 611953) % 1000003
+PickDet(set, key) == LET q == SetToSeq(set) IN q[(key % Len(q)) + 1]
+
+StartSeq == SetToSeq(Starts)
+Init == lane \in 1..Lanes /\ ex = StartSeq[(Key(lane, 0, 1) % Len(StartSeq)) + 1] /\ depth = 0
+PickOrFirst(cands, x, key) == IF cands = {} THEN Call(x, "first", <<>>) ELSE PickDet(cands, key)
 Grow == /\ depth < MaxDepth
-        /\ \E c \in {RandomElement(1..NCat)} : \E s \in {PickOrFirst(StepCat(ex, c), ex)} : ex' = s
+        /\ ex' = PickOrFirst(StepCat(ex, (Key(lane, depth, 2) % NCat) + 1), ex, Key(lane, depth, 3))
         /\ depth' = depth + 1 /\ lane' = lane
 Next == Grow
 Spec == Init /\ [][Next]_vars
